@@ -26,6 +26,8 @@ def build_real(inp):
             d = {T: inp["t"][i], TID: inp["tid"][i], LID: inp["lid"][i]}
             if inp.get("multi_pos"):
                 d["y"], d["x"] = float(i), float(2 * i)
+            elif len(shape) == 4:
+                d[POS] = [float(i), float(2 * i), float(3 * i)]
             else:
                 d[POS] = [float(i), float(2 * i)]
             if seg is not None:
